@@ -28,6 +28,10 @@ T["C04"] = ("metamorphic relation monitor over the real criteria (axioms with de
             "Monotonicity, cash invariance, convexity, ES homogeneity / monotonicity in p, entropic monotonicity in a, and the -max/-min/-mean bounds "
             "(lowered by 1/(4 lam) for quadratic CVaR) and monotone+convex expected-utility losses are checked between calls of the real modules/functions on "
             "generated tuples (X, Y, c, lambda, k); slack is the summed accuracy bound of the values involved. Two known findings (quadratic CVaR).", "4 C04")
+T["C07"] = ("quadrature-oracle contract on the Black-Scholes price functions + module plumbing check",
+            "Sampled elements of every bs_*_price call (all aliases; sweeps over moneyness, maturity, volatility, strike, running max, broadcast shapes, call/put; "
+            "modules built from simulated derivatives) are compared with a 30-digit numerical integration of the payoff against the lognormal / running-maximum law, "
+            "independent of the closed forms. One known finding (float32 accuracy of the lookback price with python-scalar arguments).", "4 C07")
 NA = {}
 
 def main():
